@@ -308,7 +308,15 @@ class Context:
                 return function_prototype()
             if not isinstance(obj, JSObject):
                 return NULL
-            return getattr(obj, "_prototype", NULL) or NULL
+            proto = obj._prototype
+            if (
+                proto is None
+                and isinstance(obj, JSArray)
+                and obj is not self._array_prototype
+                and not getattr(obj, "_null_prototype", False)
+            ):
+                proto = self._array_prototype  # arrays made by built-ins
+            return proto if proto is not None else NULL
 
         def set_prototype_of(*args):
             obj = args[0] if args else UNDEFINED
@@ -324,6 +332,8 @@ class Context:
                         raise JSTypeError("Cyclic __proto__ value")
                     current = current._prototype
                 obj._prototype = None if proto is NULL else proto
+                if proto is NULL and isinstance(obj, JSArray):
+                    obj._null_prototype = True
             return obj
 
         def define_property(*args):
